@@ -89,9 +89,89 @@ def job(args):
                     core.base_env(tz=("UTC" if tz_min == 0 else "<%s>%s" % (gen.off_str(tz_min, colon=False), gen.off_str(-tz_min)))), timeout=900)
 
 
+def tzdata_reference():
+    """zone abbreviation -> minutes east, for the alphabetic abbreviations that the IANA tz database (python zoneinfo) uses
+    with exactly one offset in 2012..2025 (independent of the program's own table)"""
+    import collections
+    import datetime
+    import zoneinfo
+    ref = collections.defaultdict(set)
+    for zn in sorted(zoneinfo.available_timezones()):
+        try:
+            z = zoneinfo.ZoneInfo(zn)
+        except Exception:
+            continue
+        for y in range(2012, 2026):
+            for mo in (1, 4, 7, 10):
+                dt = datetime.datetime(y, mo, 15, 12, 0, tzinfo=z)
+                ab = dt.tzname()
+                if ab and ab.isalpha() and ab.isascii() and ab != "LMT":
+                    ref[ab].add(int(dt.utcoffset().total_seconds() // 60))
+    up = collections.defaultdict(set)
+    for k, v in ref.items():
+        up[k.upper()] |= v
+    return {k: next(iter(v)) for k, v in up.items() if len(v) == 1}
+
+
+def abbr_probe(args):
+    s4, path = args
+    out = []
+    for t in ("+00:00", "+05:00"):
+        r = core.run([s4, "--color", "never", "-t=" + t, "-u", "-d", "%Y%m%dT%H%M%S", path], core.base_env(), timeout=60)
+        m = re.match(rb"^(\d{4})(\d\d)(\d\d)T(\d\d)(\d\d)(\d\d):", r.out)
+        out.append(gen.instant(*(int(x) for x in m.groups())) // gen.NS if m else None)
+    return out
+
+
+def abbr_sweep(ctx, s4):
+    """Every zone abbreviation, in both letter cases: (a) where the tz database knows the abbreviation with a single offset, a
+    timestamp carrying it must be read at that offset; (b) the upper- and lower-case spelling of a name must be read alike.
+    'Honoured' = the instant does not depend on -t. The names (inputs, not expectations) are the tz database's, the
+    catalogue's and those listed in the program's table."""
+    ref = tzdata_reference()
+    names = set(ref) | set(dtcat.ABBR)
+    try:
+        src = open(os.path.join(core.REPO, "src", "data", "datetime.rs"), encoding="utf-8").read()
+        i = src.index("pub static MAP_TZZ_TO_TZz")
+        names |= {n.upper() for n in re.findall(r'^\s*"([A-Za-z]+)"\s*=>', src[i:src.index("};", i)], re.M)}
+    except (OSError, ValueError):
+        ctx.count("abbreviation sweep: program table not found, names from tz database and catalogue only")
+    names = sorted(n for n in names if n.isalpha() and n not in ("Z",))
+    d = ctx.casedir("abbr")
+    jobs, meta = [], []
+    for n in names:
+        for spell in (n, n.lower()):
+            p = gen.write(os.path.join(d, "%s-%s.log" % (spell, "u" if spell == n else "l")),
+                          ("2024-01-15 12:00:00 %s S0M0 hello\n2024-01-15 12:00:01 %s S0M1 world\n" % (spell, spell)).encode())
+            jobs.append((s4, p))
+            meta.append((n, spell, p))
+    civil = gen.instant(2024, 1, 15, 12, 0, 0) // gen.NS
+    seen = {}
+    for (n, spell, p), (a, b) in zip(meta, core.pmap(abbr_probe, jobs)):
+        honoured = a is not None and a == b
+        seen[spell] = (a, b)
+        ctx.evaluated(1, ("abbr", spell))
+        if honoured:
+            ctx.count("abbreviation sweep: spellings honoured")
+            if n in ref:
+                ctx.count("abbreviation sweep: compared with the tz database")
+                if civil - a != ref[n] * 60:
+                    ctx.violation("C04|abbreviation-offset-differs-from-tz-database|%s" % spell, "'2024-01-15 12:00:00 %s' read as UTC%+d min, the tz database has %s at %+d min" % (
+                        spell, (civil - a) // 60, n, ref[n]), files={"input.log": open(p, "rb").read()}, info={"argv": [s4, "-t=+00:00", "-u", p]})
+        else:
+            ctx.count("abbreviation sweep: spellings not honoured (fallback zone used or line not recognised)")
+    for n in names:
+        if seen.get(n) != seen.get(n.lower()):
+            ctx.violation("C04|abbreviation-case-variants-disagree|%s" % n, "%s read as %s, %s as %s (instants under -t +00:00 / +05:00)" % (
+                n, seen.get(n), n.lower(), seen.get(n.lower())), info={"name": n})
+    ctx.extra["abbreviations_in_tz_database_unambiguous"] = len(ref)
+    ctx.extra["abbreviation_names_swept"] = len(names)
+
+
 def run(ctx):
     s4 = core.build_s4()
     rng = ctx.rng
+    abbr_sweep(ctx, s4)
     unamb = ambiguity(s4)
     daylist = days(ctx, rng)
     ctx.rule = ("one file per (notation template x zone spelling x fraction digits x letter case x -t value); %d days per file (%s) x times of day "
